@@ -8,7 +8,7 @@ import z3
 
 from pyvc import builtins_ as B
 from pyvc.contract import Contract
-from pyvc.values import (Builtin, ClassVal, DictVal, ExcVal, FuncVal, ListVal, Obj, Opaque, SetVal, Sym, SymList, TupleVal,
+from pyvc.values import (Builtin, ClassVal, DictVal, ExcVal, FuncVal, ListVal, Obj, Opaque, SetVal, Sym, SymList, TupleVal, SeqVal,
                          Unsupported)
 
 from pyvc import theory_cal as cal
@@ -366,13 +366,16 @@ class SimCheckForCycle(Contract):
     top_level = True
     # frames below the top one: each is (same variable?, same period?); the top frame is the request itself
     cases = tuple((sh, msl) for sh in ((), ("vp",), ("vq",), ("w",), ("vq", "w"), ("w", "vq", "vq"), ("vq", "vp"), ("w", "w"), ("vq", "vq"))
-                  for msl in (1, 2))
+                  for msl in (1, 2)) + (("any-stack", None),)
     descr = ("a request already on the stack (same variable, same period) is a circular definition; otherwise the variable "
-             "occurring max_spiral_loops times below is a spiral: frames are marked, then SpiralError; else nothing happens "
-             "(stack shapes up to three frames, periods symbolic)")
+             "occurring max_spiral_loops times below is a spiral: frames are marked, then SpiralError; else nothing happens - "
+             "proved for an evaluation stack of any length with symbolic frames and any max_spiral_loops (case any-stack), and on "
+             "enumerated shapes of up to three frames")
 
     def setup(self, I, ctx, case):
         shape, msl = case
+        if shape == "any-stack":
+            return _AnyStackCycle.setup(I, ctx)
         w = World18(I, ctx, "simple", 0)
         p = sym_period(I, ctx, "month", "p")
         frames = []
@@ -395,6 +398,8 @@ class SimCheckForCycle(Contract):
         return {f"{SIM}.invalidate_spiral_variables": rec(f"{SIM}.invalidate_spiral_variables", "invalidate", [("return", None)])}
 
     def post(self, I, ctx, a, out, old):
+        if "__st" in a:
+            return _AnyStackCycle.post(I, ctx, a, out)
         shape = a["__shape"]
         msl = a["self"].fields["max_spiral_loops"]
         cyc = "vp" in shape
@@ -406,6 +411,75 @@ class SimCheckForCycle(Contract):
             return [("spiral-detected", out[0] == "raise" and out[1].cls.name == "SpiralError"),
                     ("frames-marked-before-the-error", len(inv) == 1 and inv[0]["args"]["variable"] == "v")]
         return [("no-error", out[0] == "return"), ("nothing-marked", not inv)]
+
+
+
+class SymStack:
+    """an evaluation stack of any length: frame i carries the variable named NAME(i) and the period PER(i) (all symbolic)"""
+
+    def __init__(self, I, ctx, w, min_frames=1):
+        self.n = ctx.fresh_int("frames")
+        ctx.assume(self.n >= min_frames)
+        STRS = z3.DeclareSort("VarName")
+        self.NAME = z3.Function(ctx.fresh_name("FRAME_NAME"), z3.IntSort(), STRS)
+        self.Y = z3.Function(ctx.fresh_name("FRAME_Y"), z3.IntSort(), z3.IntSort())
+        self.M = z3.Function(ctx.fresh_name("FRAME_M"), z3.IntSort(), z3.IntSort())
+        self.v = z3.Const(ctx.fresh_name("requested_variable"), STRS)
+        strcls = I.builtins["str"]
+        self.name_of = lambda i: Opaque(self.NAME(B._z(i)), "variable-name", {"cls": strcls})
+        self.period_of = lambda i: mk_period(I, "month", mk_instant(I, Sym(self.Y(B._z(i))), Sym(self.M(B._z(i))), 1), 1)
+        self.frame = lambda i: dict_of([("name", self.name_of(i)), ("period", self.period_of(i))])
+        self.seq = SeqVal(self.n, self.frame, "stack")
+        lst = w.stack
+        w.sim.fields["tracer"].fields["_stack"] = SymList(self.seq)
+        self.variable = Opaque(self.v, "variable-name", {"cls": strcls})
+
+    def same_period(self, i, y, m):
+        return z3.And(self.Y(i) == y, self.M(i) == m)
+
+
+class _AnyStackCycle:
+    descr = ("for an evaluation stack of ANY length (frames symbolic): the request is refused as a circular definition exactly when a "
+             "frame below the top one carries the same variable and the same period; otherwise, when at least max_spiral_loops "
+             "frames below carry the variable, frames are marked (once) and SpiralError is raised; otherwise nothing happens")
+
+    @staticmethod
+    def setup(I, ctx):
+        w = World18(I, ctx, "simple", 0)
+        st = SymStack(I, ctx, w)
+        y, m = ctx.fresh_int("py"), ctx.fresh_int("pm")
+        p = mk_period(I, "month", mk_instant(I, Sym(y), Sym(m), 1), 1)
+        top = st.n - 1
+        ctx.assume(z3.And(st.NAME(top) == st.v, st.Y(top) == y, st.M(top) == m))      # the top frame is the request itself
+        msl = ctx.fresh_int("max_spiral_loops")
+        ctx.assume(msl >= 1)
+        w.sim.fields["max_spiral_loops"] = Sym(msl)
+        return {"self": w.sim, "variable": st.variable, "period": p, "__st": st, "__y": y, "__m": m, "__msl": msl}
+
+    @staticmethod
+    def post(I, ctx, a, out):
+        st, y, m, msl = a["__st"], a["__y"], a["__m"], a["__msl"]
+        inv = log_of(ctx, "invalidate")
+        i = z3.Int(ctx.fresh_name("i_frame"))
+        below = lambda j: z3.And(j >= 0, j < st.n - 1)
+        cyc = z3.Exists([i], z3.And(below(i), st.NAME(i) == st.v, st.same_period(i, y, m)))
+        ens = ctx.ghost.get("mask_enums", {})
+        cnts = [en.cnt for en in ens.values()]
+        if len(cnts) != 1:
+            return [("the-frames-of-the-variable-below-the-top-are-counted-once", False)]
+        cnt = cnts[0]
+        en = list(ens.values())[0]
+        k = ctx.fresh_int("k_frame")
+        counted = [("the-frames-counted-are-exactly-the-frames-of-the-requested-variable-below-the-top",
+                    z3.And(en.n == st.n - 1, z3.Implies(below(k), B.zbool(en.mask.elem(k)) == (st.NAME(k) == st.v))))]
+        if out[0] == "raise" and out[1].cls.name == "CycleError":
+            return counted + [("refused-as-circular-only-when-the-same-variable-and-period-are-below", cyc), ("nothing-marked", not inv)]
+        if out[0] == "raise" and out[1].cls.name == "SpiralError":
+            return counted + [("not-a-circular-definition", z3.Not(cyc)), ("at-least-max_spiral_loops-frames-below-carry-the-variable", cnt >= msl),
+                    ("frames-marked-once-before-the-error", len(inv) == 1 and inv[0]["args"]["variable"] is a["variable"])]
+        if out[0] == "return":
+            return counted + [("not-a-circular-definition", z3.Not(cyc)), ("fewer-than-max_spiral_loops-frames-below-carry-the-variable", cnt < msl), ("nothing-marked", not inv)]
+        return [("no-other-outcome", False)]
 
 
 class SimInvalidateSpiral(Contract):
